@@ -943,6 +943,9 @@ class CompositeEnvelope:
             state_order.extend(product_state.state_objs)
             product_state.state_objs = []
         for so in target_state_objs:
+            if any(so is ordered for ordered in state_order):
+                # Already brought in together with its envelope partner
+                continue
             if (
                 hasattr(so, "envelope")
                 and so.envelope is not None
